@@ -229,6 +229,22 @@ def guarded_run(prop, case, driver):
         return res, None, None
 
 
+def same_failure(res0):
+    """shrinking keeps the failure it started from: a candidate counts only if its first violation reads the same
+    once numbers, names and quoted or bracketed data are taken out (a smaller input that fails for another reason —
+    because it is not a valid input any more, say — is not a smaller witness)"""
+    import re
+
+    def sig(res):
+        if not res.violations:
+            return None
+        t = re.sub(r"'[^']*'|\"[^\"]*\"|\[[^\]]*\]|\{[^}]*\}|\([^)]*\)", '', str(res.violations[0]))
+        t = re.sub(r'[0-9]+', '', t)
+        return re.sub(r'\s+', ' ', t)[:48]
+    s0 = sig(res0)
+    return lambda r: bool(r.violations) and sig(r) == s0
+
+
 def shrink(prop, case, driver, pred):
     """greedy delta debugging with the property's own candidate generator (bounded: 300 candidates,
     45 s; a candidate on which the implementation does not return ends the shrinking)"""
@@ -393,7 +409,7 @@ def run_check(prop, tier, seed, replay=None, jobs=None, n_cases=None, write_evid
         if reported >= 3:
             nviol += 1
             continue
-        small = shrink(prop, case, driver, lambda r: bool(r.violations))
+        small = shrink(prop, case, driver, same_failure(res))
         r2, _, _ = guarded_run(prop, small, driver)
         text = '; '.join((r2.violations or res.violations)[:3])
         report('violation', origin, small.payload, text)
@@ -436,7 +452,7 @@ def run_check(prop, tier, seed, replay=None, jobs=None, n_cases=None, write_evid
                     case = Case(keep2, prop.rebuild(keep2), origin='search:%d' % s2)
                     if any(prop.known_signature(f, case, res2) for f in known):
                         continue
-                    small = shrink(prop, case, driver, lambda r: bool(r.violations))
+                    small = shrink(prop, case, driver, same_failure(res2))
                     r3, _, _ = guarded_run(prop, small, driver)
                     report('violation', 'search:%d' % s2, small.payload,
                            'found by the failing-input search after a broken obligation: '
